@@ -52,18 +52,24 @@ def _valid(draw):
             "calib": [ref.from_si(calib_m, cu), cu] if (fp == "SFP" or draw(st.booleans())) else None,
             "target": [ref.from_si(target_m, tu), tu],
             "drop": corr(), "wind": corr(), "via_row": draw(st.booleans()),
-            "bare_target": draw(st.booleans())}
+            "bare_target": draw(st.booleans()),
+            # history between construction and query: re-display the caller's quantities / switch the preferred distance unit
+            "redisplay": draw(st.one_of(st.none(), st.sampled_from(DIST))),
+            "pref_distance_after": draw(st.one_of(st.none(), st.none(), st.sampled_from(DIST))),
+            "row_look_deg": draw(st.one_of(st.just(0.0), st.floats(-45.0, 45.0)))}
 
 
 def _q(pair):
     return Unit[pair[1]](pair[0])
 
 
-def _row(dist_q, drop_q, wind_q):
+def _row(dist_q, drop_q, wind_q, look_deg=0.0):
     TD = pb.TrajectoryData
     z = pb.Distance.Foot(0)
+    # a row of a shot along an inclined sight line: look_distance = distance / cos(look angle)
+    look_q = pb.Distance.Foot((dist_q >> pb.Distance.Foot) / math.cos(math.radians(look_deg)))
     return TD(time=0.1, distance=dist_q, velocity=pb.Velocity.FPS(1000), mach=1.0, height=z, target_drop=z,
-              drop_adj=drop_q, windage=z, windage_adj=wind_q, look_distance=dist_q, angle=pb.Angular.Radian(0),
+              drop_adj=drop_q, windage=z, windage_adj=wind_q, look_distance=look_q, angle=pb.Angular.Radian(0),
               density_factor=0.0, drag=0.0, energy=pb.Energy.FootPound(0), ogw=pb.Weight.Pound(0), flag=8)
 
 
@@ -85,7 +91,16 @@ def check_valid(case):
     r = Res()
     fp = case["fp"]
     r.label(fp)
-    sight = pb.Sight(fp, _q(case["calib"]) if case["calib"] else None, _q(case["h"]), _q(case["v"]))
+    calib_q = _q(case["calib"]) if case["calib"] else None
+    hq, vq = _q(case["h"]), _q(case["v"])
+    sight = pb.Sight(fp, calib_q, hq, vq)
+    if case.get("redisplay") and calib_q is not None:
+        # the caller keeps using its own quantity objects: showing them in another unit changes no magnitude (C13)
+        calib_q << Unit[case["redisplay"]]
+        r.label("calibration-redisplayed")
+    if case.get("pref_distance_after") and not case["bare_target"]:
+        pb.PreferredUnits.distance = Unit[case["pref_distance_after"]]
+        r.label("preferred-distance-switched")
     drop, wind = _q(case["drop"]), _q(case["wind"])
     if case["bare_target"] and not case["via_row"]:
         # a bare number is read in the preferred distance unit (yard at defaults)
@@ -94,8 +109,8 @@ def check_valid(case):
     else:
         target = _q(case["target"])
     if case["via_row"]:
-        got = sight.get_trajectory_adjustment(_row(_q(case["target"]), drop, wind), case["mag"])
-        r.label("via-row")
+        got = sight.get_trajectory_adjustment(_row(_q(case["target"]), drop, wind, case.get("row_look_deg", 0.0)), case["mag"])
+        r.label("via-row", "row-look!=0" if case.get("row_look_deg") else "row-look=0")
     else:
         got = sight.get_adjustment(target, drop, wind, case["mag"])
     d_rad, w_rad = ref.to_si(*case["drop"]), ref.to_si(*case["wind"])
